@@ -272,7 +272,14 @@ func (w *c20World) RoundTrip(req *http.Request) (*http.Response, error) {
 		if int((h>>8)%100) < w.p.errPct && w.errRun[key] < 3 {
 			w.errRun[key]++
 			w.out.T(fmt.Sprintf("ret %d %d err", start, end), "ok")
-			switch (h >> 16) % 4 {
+			switch (h >> 16) % 7 {
+			case 4:
+				// a lagging front end refuses, once, a request inside the STH that was served ("need tree size 8, only got 4")
+				return c20Err(http.StatusBadRequest), nil
+			case 5:
+				return c20Err(http.StatusNotFound), nil
+			case 6:
+				return c20Err(http.StatusRequestedRangeNotSatisfiable), nil
 			case 0:
 				return c20Err(http.StatusTooManyRequests), nil
 			case 1:
@@ -913,6 +920,51 @@ func c20Gen(r *verifkit.Rand, it int) *c20Params {
 	return p
 }
 
+// TestVerifC16Controller is C16's look at the code it shares with C20 (migrillian's Controller drives the Fetcher pass after pass):
+// "in continuous mode it carries on with newly published entries without gaps or repeats" across passes — with a destination whose
+// signed root lags behind what was submitted, each pass must start where the previous one ended (oracle `resubmitted`), and a run that
+// reports success has everything (`gap`). SHA256_LEAF_INDEX only, so that C20's finding about repeated certificates is not involved.
+// The events are not replayed on a model here (C20's driver does that for the same scenarios).
+func TestVerifC16Controller(t *testing.T) {
+	out := verifkit.Open()
+	defer out.Close()
+	r := verifkit.NewRand(verifkit.Seed() ^ 0xc16c20)
+	li := configpb.IdentityFunction_SHA256_LEAF_INDEX
+	fixed := []*c20Params{
+		{id: "cl0", mode: "run", proofMode: "ok", cfgStart: -1, cont: true, size0: 4, batch: 10, fetchers: 1, submit: 1, idFunc: li, seed: 41, lag: true, lagN: 1000,
+			growth: []c20Growth{{40 * time.Second, 6}, {3 * time.Minute, 10}}, stopAfter: 12 * time.Minute},
+		{id: "cl1", mode: "run", proofMode: "ok", cfgStart: -1, cont: true, size0: 6, batch: 3, fetchers: 2, submit: 2, idFunc: li, seed: 42, lag: true, lagN: 2, shortPct: 30,
+			growth: []c20Growth{{50 * time.Second, 10}, {2 * time.Minute, 11}, {4 * time.Minute, 40}}, stopAfter: 15 * time.Minute},
+		{id: "cn0", mode: "run", proofMode: "ok", cfgStart: -1, size0: 48, batch: 4, fetchers: 2, submit: 2, idFunc: li, seed: 43, errPct: 60},
+	}
+	for _, p := range fixed {
+		p.fseed = p.seed * 131
+		out.Count("mode:fixed")
+		c20Run(out, p)
+	}
+	for it := 0; it < verifkit.N(6, 60); it++ {
+		p := c20Gen(r, it)
+		p.id = fmt.Sprintf("cg%d", it)
+		p.mode, p.cont, p.idFunc, p.unique, p.lossAt, p.cancelAt, p.fork, p.proofMode, p.fatalAt, p.noCheck = "run", true, li, false, nil, 0, false, "ok", 0, false
+		p.lag, p.lagN = true, c20Pick(r, 1, 2, 5, 1000)
+		p.cfgStart, p.cfgEnd = -1, 0
+		if p.dest0 > p.size0 {
+			p.dest0 = p.size0
+		}
+		p.growth = nil
+		at, sz := time.Duration(0), p.size0
+		for j := 0; j < 2+r.Intn(3); j++ {
+			at += time.Duration(500+r.Intn(120000)) * time.Millisecond
+			sz += int64(1 + r.Intn(30))
+			p.growth = append(p.growth, c20Growth{at: at, size: sz})
+		}
+		p.stopAfter = at + 5*time.Minute + time.Duration(sz+1)*8*time.Second + time.Duration(sz/int64(p.batch)+1)*40*time.Second
+		out.Count("mode:run")
+		out.Count("class:continuous")
+		c20Run(out, p)
+	}
+}
+
 func TestVerifC20(t *testing.T) {
 	out := verifkit.Open()
 	defer out.Close()
@@ -934,6 +986,7 @@ func TestVerifC20(t *testing.T) {
 		// one-shot migration under election: mastership is revoked after the first batch and before the last, then granted again
 		{id: "m0", mode: "master", proofMode: "ok", cfgStart: -1, size0: 60, batch: 5, fetchers: 1, submit: 1, idFunc: li, seed: 21, addDelay: 2 * time.Second, lossAt: []time.Duration{7 * time.Second}},
 		{id: "m1", mode: "master", proofMode: "ok", cfgStart: 0, size0: 40, dest0: 10, batch: 4, fetchers: 2, submit: 2, idFunc: li, seed: 22, addDelay: 3 * time.Second, lossAt: []time.Duration{5 * time.Second, 9 * time.Second}},
+		{id: "n0", mode: "run", proofMode: "ok", cfgStart: -1, size0: 48, batch: 4, fetchers: 2, submit: 2, idFunc: li, seed: 23, errPct: 60},
 		{id: "f2", mode: "run", proofMode: "ok", cfgStart: -1, size0: 57, dest0: 20, batch: 7, fetchers: 3, submit: 2, idFunc: li, seed: 3, shortPct: 100, errPct: 10},
 		{id: "f3", mode: "run", proofMode: "ok", cfgStart: -1, size0: 57, dest0: 57, batch: 7, fetchers: 1, submit: 1, idFunc: li, seed: 4},
 		{id: "f4", unique: true, mode: "run", proofMode: "ok", cfgStart: -1, size0: 40, dest0: 10, fork: true, batch: 7, fetchers: 1, submit: 1, idFunc: cd, seed: 5},
